@@ -13,7 +13,39 @@ def encURes : URes → String
   | .overflowError => "OverflowError"
   | .surrogate => "surrogate"
 
+/-- the codecs the driver knows (correspondence only): utf8 (strict), latin1, ascii; anything else raises -/
+def driverCodec (key : List Char) (b : List Nat) : Option (List Char) :=
+  if key = "utf8".toList then Spec.utf8Decode b
+  else if key = "latin1".toList then some (b.map Char.ofNat)
+  else if key = "ascii".toList then (if b.all (· < 128) then some (b.map Char.ofNat) else none)
+  else none
+
+/-- `L <key>` | `C <j> str|other|bytes <payload>`, flat -/
+def decOps : List String → Option (List DecodeOp)
+  | [] => some []
+  | "L" :: k :: rest => do
+    let k ← decStr k; let ops ← decOps rest; pure (.lookup k :: ops)
+  | "C" :: j :: kind :: x :: rest => do
+    let j ← j.toNat?
+    let v ← (match kind with
+      | "str" => (decStr x).map PyVal.str
+      | "other" => (decStr x).map PyVal.other
+      | "bytes" => (decBytes x).map PyVal.bytes
+      | _ => none)
+    let ops ← decOps rest
+    pure (.call j v :: ops)
+  | _ => none
+
+def encDecodeOut : DecodeOut → Option String
+  | .none => none
+  | .result r => some (encOpt encStr r)
+  | .badIndex => some "badindex"
+
 def handle : Handler
+  | "decodeseq" :: ops => do
+      let ops ← decOps ops
+      let outs := (decodeRun driverCodec [] ops).2.filterMap encDecodeOut
+      pure (if outs.isEmpty then "[]" else " ".intercalate outs)
   | ["x", s] => do let s ← decStr s; pure (encStr (xmlEscape s))
   | ["xun", s] => do let s ← decStr s; pure (encStr (xmlUnescape s))
   | ["h", s] => do let s ← decStr s; pure (encStr (htmlEscape s))
@@ -27,7 +59,6 @@ def handle : Handler
   | ["unescape", s] => do let s ← decStr s; pure (encURes (entityUnescape s))
   | ["xee", s] => do let s ← decStr s; pure (encStr (xeeEscape s))
   | ["decoderef", s] => do let s ← decStr s; pure (encOpt (fun c => toString c.toNat) (Spec.decodeRef s))
-  | ["bytesrepr", s] => do let s ← decStr s; pure (encStr (bytesRepr s))
   | ["handler", g, bad, s] => do
       -- `bad`: the characters of `s` the target charset cannot encode (everything else is encodable)
       let g ← decBool g; let bad ← decStr bad; let s ← decStr s
